@@ -280,7 +280,9 @@ impl GenerationPass for AvailableValuePass {
                 changed |= node.set_memory_values_out(out_memory_n);
 
                 // Add node to visited
-                visited.insert(Rc::clone(&node));
+                // (a sweep in which a node was seen for the first time is never the last one:
+                // the nodes before it have not taken its facts into account yet)
+                changed |= visited.insert(Rc::clone(&node));
             }
         }
         Ok(())
